@@ -10,6 +10,7 @@ use crate::ev;
 use crate::fault::FaultReader;
 use gimli::{EndianSlice, Error, Reader, Result, RunTimeEndian};
 
+pub mod info;
 pub mod line;
 pub mod lists;
 pub mod small;
@@ -157,6 +158,7 @@ pub fn drive_family<'a, R: Reader<Offset = usize> + 'a>(
         "line" => line::line(mk, case, ctx),
         "macros" => line::macros(mk, case, ctx),
         "lists" => lists::lists(mk, case, ctx),
+        "info" => info::info(mk, case, ctx),
         other => panic!("unknown family {}", other),
     }
 }
